@@ -210,7 +210,7 @@ theorem drop_eq_reference_without_level {κ} (cols : List Level) (recs : List (L
             a.levels.lookup (cols[i]'(by omega)) = some (inferred ec pn) := by
   have hi : i < cols.length := by omega
   have hne : cols ≠ [] := by intro h; rw [h] at hi; cases hi
-  have w0 : WF (fromRecordsRaw cols recs) := fromRecordsRaw_wf hc hne hr hn
+  have w0 : WF (fromRecordsRaw cols recs) := fromRecordsRaw_wf hc hne hr hn hrec
   obtain ⟨t', hd, hraw, w'⟩ := dropLevel_eq_ok w0 (i := i) (allowLeaf := false) hi
     (by show 2 ≤ cols.length; omega) (Or.inr hi1)
   have hd' : (fromRecordsRaw cols recs).dropLevel (cols[i]'hi) = .ok t' := hd
@@ -224,6 +224,7 @@ theorem drop_eq_reference_without_level {κ} (cols : List Level) (recs : List (L
     simp at this; omega
   have wE : WF (fromRecordsRaw (cols.eraseIdx i) (recs.map (·.eraseIdx i))) :=
     fromRecordsRaw_wf hcE hneE (recsOK_eraseIdx hr i) (nested_eraseIdx hr hn i)
+      (by simpa using hrec)
   have hwf0 := wfb_of_WF w0 (hasNode_fromRecords hc hne hr hn hrec)
   have hs : (fromRecordsRaw cols recs).hierarchy =
       cols.take i ++ cols[i] :: cols[i+1] :: cols.drop (i+2) := split_at_idx cols hi1
